@@ -45,7 +45,12 @@ def warm_start(
     pstart = f.variables["particle_count"][:-1].sum()
     pcount = f.variables["particle_count"][-1]
     pend = pstart + pcount
-    pid_max = np.max(f.variables["pid"][:]) + 1
+    # Total number of particles released so far
+    if "num_particles" in f.ncattrs():
+        pid_max = int(f.num_particles)
+    else:  # Older file, use the highest pid present
+        pids = f.variables["pid"][:]
+        pid_max = int(np.max(pids)) + 1 if len(pids) > 0 else 0
 
     logger.info("antall partikler = %s", pcount)
 
